@@ -354,7 +354,7 @@ func TestVerif_C08_filters(t *testing.T) {
 		}
 		return
 	}
-	verifkit.RapidSetup(520, 9000)
+	verifkit.RapidSetup(1500, 60000)
 	rapid.Check(t, func(rt *rapid.T) {
 		c := c08GenCase().Draw(rt, "case")
 		st := c08Plan(c)
